@@ -5,7 +5,10 @@
    DeleteRegion / Flush / reopen / byte-budget changes / loads, with arbitrary uint64 ids (`ops_ok`: 0 <= id < 2^64) —
    any number of items, any id distribution; page limits and fault patterns are universally quantified in the
    paging theorem (C17_paging_exact: any limit >= 1, any minimum, any LoadRange fault oracle, any callback that only
-   deletes ids it has been shown).  The four defects found here (S9 at both loaders, S10) are fixed in /repo
+   deletes ids it has been shown).  Storage faults: a Save / Remove on Storage.Base may return an error with the write
+   applied or not (ops O…F with the flag `applied`): the want-functions count such a write iff it was applied, i.e. an
+   acknowledged write is always reflected and an errored one leaves the old or the new value, nothing else; the timed
+   background flush of RegionStorage is the label OTick, admitted anywhere in a plain history.  The four defects found here (S9 at both loaders, S10) are fixed in /repo
    (fce77ba, 8a5de01); the statements below are the full-strength ones about the repaired code.  Namespaces are id-sorted association lists (zero-padded keys: lemma
    C17_pad_covers_uint64); LoadRange is end-exclusive (obligations src_*_LoadRange_ok). *)
 From Coq Require Import String.
@@ -70,7 +73,7 @@ Proof. exact load_returns_each_saved_once_pf. Qed.
 (* The regions namespace is what the history left; whatever the byte budget the load never loops for ever and, when it
    finishes, returns every region exactly once in id order; it finishes whenever pages of at most 156 items fit. *)
 Theorem C17_load_regions_direct :
-  forall ops, ops_ok ops -> plain_ops ops = true ->
+  forall ops, ops_ok ops -> direct_ops ops = true ->
     let s := run_state run_op sinit ops in
     (forall id, lookup (base_r s) id = fold_left region_want ops no_rwant id) /\
     sorted_from 0 (base_r s) /\
@@ -93,6 +96,15 @@ Theorem C17_flush_makes_durable :
     sorted_from 0 (ldb s) /\
     snd (run_op s OLoadRegions) = BRegions RDone (ldb s).
 Proof. exact flush_makes_durable_pf. Qed.
+
+(* a stop of the process inside a flush: the leveldb batch write is atomic, so leveldb holds either everything the
+   batch carried or nothing of it *)
+Theorem C17_crash_in_flush_atomic :
+  forall s written, SInv s ->
+    let s' := fst (run_op s (OCrashInFlush written)) in
+    batch s' = [] /\ base_r s' = base_r s /\
+    forall id, lookup (ldb s') id = if written then overlay s id else lookup (ldb s) id.
+Proof. exact crash_in_flush_atomic. Qed.
 
 (* a stop of the process between two batches loses the unflushed batch and nothing else *)
 Theorem C17_crash_keeps_flushed :
@@ -159,5 +171,6 @@ Print Assumptions C17_load_returns_each_saved_once.
 Print Assumptions C17_load_regions_direct.
 Print Assumptions C17_flush_makes_durable.
 Print Assumptions C17_crash_keeps_flushed.
+Print Assumptions C17_crash_in_flush_atomic.
 Print Assumptions C17_load_prunes_to_cache.
 Print Assumptions C17_prune_operation.
